@@ -6,6 +6,21 @@ import os
 HERE = os.path.dirname(os.path.dirname(os.path.abspath(__file__)))
 
 CLAIMS = {
+    "C14": dict(
+        text="Static typestate analysis: abstract interpretation with a persistent abstract heap explores the "
+             "protocol automaton {fit, partial_fit, add_arm(with/without binarizer), predict, predict_expectations} "
+             "to a fixed point for ThompsonSampling alone, under all five neighbourhood policies and in the three "
+             "simulator re-implementations. The binarizer field and the 'already binarized' flag of every Thompson "
+             "object are tracked as constants read off the code; every reward array carries its observation "
+             "classes with a conversion counter that a call of the binarizer field increments; at each update of "
+             "the Beta counters the count must equal what the property specifies (0 for rewards that arrived "
+             "without a binarizer, 1 otherwise). Found and guards the repaired add_arm defect; TreeBandit's second "
+             "conversion is a known finding (and masks further TreeBandit conversion faults).",
+        note="Trusted: loops over arms/cluster policies/rows run at least once; the binarizer is only invoked "
+             "through the binarizer field; externals table. What a user's binarizer returns is not decided.",
+        technique="typestate / abstract interpretation with persistent heap over the public call protocol "
+                  "(fixed point over abstract states)",
+        ref="DESIGN.md section 3, C14"),
     "C17": dict(
         text="Static ordering analysis on the path structure of the abstract traces: in every facade entry point "
              "(all 55 configurations) no validation/conversion that can raise, and no column-sensitive implementor "
